@@ -29,6 +29,10 @@ const maxLiteralSize = (1 << 31) - 512 // int32_max minus some room for the lite
 
 // MergeSignature combines a detached signature with a cleartext message and writes it as an inline signed message with optional ASCII armor
 func MergeSignature(w io.Writer, sig []byte, message io.Reader, withArmor bool, filename string) (err error) {
+	// the armor encoder does not report a failure to write its last line of
+	// data, so keep track of write errors here
+	out := &errWriter{w: w}
+	w = out
 	var armorer io.WriteCloser = nopCloseWriter{w}
 	if withArmor {
 		armorer, err = armor.Encode(w, "PGP MESSAGE", nil)
@@ -61,7 +65,28 @@ func MergeSignature(w io.Writer, sig []byte, message io.Reader, withArmor bool, 
 	if _, err := armorer.Write(sig); err != nil {
 		return err
 	}
-	return armorer.Close()
+	if err := armorer.Close(); err != nil {
+		return err
+	}
+	return out.err
+}
+
+// errWriter remembers the first error of the underlying writer and fails all
+// further writes with it
+type errWriter struct {
+	w   io.Writer
+	err error
+}
+
+func (e *errWriter) Write(d []byte) (int, error) {
+	if e.err != nil {
+		return 0, e.err
+	}
+	n, err := e.w.Write(d)
+	if err != nil {
+		e.err = err
+	}
+	return n, err
 }
 
 // write a one-pass signature header with the fields copied from the detached signature in sig
